@@ -124,6 +124,7 @@ def install(it, lines, tables, dialect=None, existing_db=False, path="/ghost/in.
             conns[0].tables_exist = False        # the tables live in the file: an unlinked file is a fresh, empty database
     it.contracts[os.path.exists] = path_exists
     it.contracts[os.unlink] = unlink
+    it.contracts[os.remove] = unlink
     it.contracts[os.path.expanduser] = lambda interp, a, k: a[0]
     conns = []
 
